@@ -5,7 +5,7 @@ writes seeded/RESULTS.json: {seed: {property: {"exit": n, "violations": [...], "
 import json, os, subprocess, sys, shutil
 
 VERIF = os.path.normpath(os.path.join(os.path.dirname(os.path.abspath(__file__)), ".."))
-SCR = "/tmp/vm"
+SCR = os.environ.get("SEED_SCR", "/tmp/vm")   # a second concurrent run uses another scratch dir and SEED_RESULTS file
 EXTRA = {  # a change may also endanger the composite properties
     "C08": ["C01"], "C16": ["C01", "C06", "C04"], "C09": ["C01"], "C12": ["C01", "C02"], "C13": ["C02"], "C15": ["C02"],
 }
@@ -19,7 +19,7 @@ def main():
     seeds = sys.argv[1:] or sorted(d for d in os.listdir(os.path.join(VERIF, "seeded")) if os.path.isdir(os.path.join(VERIF, "seeded", d)))
     os.makedirs(SCR, exist_ok=True)
     sh(f"rsync -a --delete --exclude .git {VERIF}/ {SCR}/verif/")
-    respath = os.path.join(VERIF, "seeded", "RESULTS.json")
+    respath = os.environ.get("SEED_RESULTS") or os.path.join(VERIF, "seeded", "RESULTS.json")
     results = json.load(open(respath)) if os.path.exists(respath) else {}
     manifest = json.load(open(os.path.join(VERIF, "MANIFEST.json")))
     claimed = {c["property_id"] for c in manifest["checks"]}
